@@ -397,9 +397,162 @@ var c15Macros = &vlib.Check{
 	},
 }
 
-func init() { vlib.Register(c15Model, c15Corpus, c15Macros) }
+// small documents, all permutations: <= 5 blocks - up to three types that refer to each other (properties, array items,
+// or-types, allOf, recursion through optional properties), an ENUM used by a rule, a TAG and a method using them.
+func c15SmallBlocks(r vlib.Rnd) []string {
+	k := 1 + r.Intn(3)
+	useEnum := vlib.Chance(r, 1, 2)
+	useTag := vlib.Chance(r, 1, 3)
+	var blocks []string
+	for i := 0; i < k; i++ {
+		var props []string
+		head := ""
+		if i+1 < k && vlib.Chance(r, 1, 3) {
+			head = fmt.Sprintf(" // {allOf: \"@t%d\"}", i+1) // allOf only towards later types: no allOf cycles
+		}
+		for j := 0; j < k; j++ {
+			if !vlib.Chance(r, 1, 2) {
+				continue
+			}
+			// \x00 marks the place of the comma that separates this property from the next one
+			switch r.Intn(4) {
+			case 0:
+				props = append(props, fmt.Sprintf("    \"r%d_%d\": [ // {optional: true}\n      @t%d\n    ]\x00", i, j, j))
+			case 1:
+				props = append(props, fmt.Sprintf("    \"r%d_%d\": @t%d | @t%d\x00 // {optional: true}", i, j, j, r.Intn(k)))
+			default:
+				props = append(props, fmt.Sprintf("    \"r%d_%d\": @t%d\x00 // {optional: true}", i, j, j))
+			}
+		}
+		if useEnum && vlib.Chance(r, 1, 2) {
+			props = append(props, fmt.Sprintf("    \"e%d\": \"a\"\x00 // {enum: @e}", i))
+		}
+		if len(props) == 0 || vlib.Chance(r, 1, 2) {
+			props = append(props, fmt.Sprintf("    \"own%d\": %d\x00", i, i))
+		}
+		for n := range props {
+			c := ","
+			if n == len(props)-1 {
+				c = ""
+			}
+			props[n] = strings.Replace(props[n], "\x00", c, 1)
+		}
+		blocks = append(blocks, fmt.Sprintf("TYPE @t%d\n  {%s\n%s\n  }\n", i, head, strings.Join(props, "\n")))
+	}
+	if useEnum {
+		blocks = append(blocks, "ENUM @e\n  [\"a\", \"b\"]\n")
+	}
+	if useTag && len(blocks) < 4 {
+		blocks = append(blocks, "TAG @g\n")
+	} else {
+		useTag = false
+	}
+	m := fmt.Sprintf("%s /m/{id}\n", vlib.Pick(r, []string{"GET", "POST"}))
+	if useTag {
+		m += "  Tags @g\n"
+	}
+	if vlib.Chance(r, 1, 2) {
+		if useEnum {
+			m += "  Path\n    {\n      \"id\": \"a\" // {enum: @e}\n    }\n"
+		} else {
+			m += "  Path\n    {\n      \"id\": 1 // {min: 0}\n    }\n"
+		}
+	}
+	m += fmt.Sprintf("  200 @t%d\n", r.Intn(k))
+	if vlib.Chance(r, 1, 2) {
+		m += fmt.Sprintf("  404 [@t%d]\n", r.Intn(k))
+	}
+	blocks = append(blocks, m)
+	if len(blocks) < 5 && vlib.Chance(r, 1, 3) {
+		blocks = append(blocks, "SERVER @s\n  BaseUrl \"https://x.io\"\n")
+	}
+	return blocks
+}
+
+var c15Small = &vlib.Check{
+	Prop: "C15", Name: "small-all-permutations", Quick: 60, Thorough: 4000,
+	Oracle: c15Oracle,
+	Classify: func(c *vlib.Case) (bool, []string) {
+		b := vlib.Build(c.Project)
+		defer b.Close()
+		n := asInt(c.Params["blocks"])
+		cls := []string{fmt.Sprintf("blocks-%d", n)}
+		if !b.Out.OK() {
+			return false, append(cls, "original-rejected", "original-rejected:"+errClass(b.Out.Msg))
+		}
+		if c.Params["identity"] == true {
+			return false, append(cls, "identity")
+		}
+		return n >= 3, cls
+	},
+}
+
+func permutations(n int) [][]int {
+	var out [][]int
+	idx := make([]int, n)
+	for i := range idx {
+		idx[i] = i
+	}
+	var rec func(k int)
+	rec = func(k int) {
+		if k == n {
+			out = append(out, append([]int(nil), idx...))
+			return
+		}
+		for i := k; i < n; i++ {
+			idx[k], idx[i] = idx[i], idx[k]
+			rec(k + 1)
+			idx[k], idx[i] = idx[i], idx[k]
+		}
+	}
+	rec(0)
+	return out
+}
+
+func init() { vlib.Register(c15Model, c15Corpus, c15Macros, c15Small) }
 
 func TestC15(t *testing.T) {
+	t.Run("small-all-permutations", func(t *testing.T) {
+		// the documents are drawn by rapid, their permutations are enumerated
+		var docs [][]string
+		gen := &vlib.Check{Prop: "C15", Name: "small-all-permutations", Quick: c15Small.Quick, Thorough: c15Small.Thorough,
+			Oracle: func(*vlib.Case) *vlib.Violation { return nil },
+			Gen: func(rt *rapid.T) *vlib.Case {
+				docs = append(docs, c15SmallBlocks(vlib.RapidRnd{T: rt}))
+				return nil
+			}}
+		gen.Run(t)
+		render := func(blocks []string, perm []int) *vlib.Project {
+			var sb strings.Builder
+			sb.WriteString("JSIGHT 0.3\n\n")
+			for _, i := range perm {
+				sb.WriteString(blocks[i] + "\n")
+			}
+			return vlib.SingleFile([]byte(sb.String()))
+		}
+		di, pi := 0, 0
+		var perms [][]int
+		done := c15Small.RunEnum(t, func() *vlib.Case {
+			for di < len(docs) {
+				if perms == nil {
+					perms = permutations(len(docs[di]))
+				}
+				if pi >= len(perms) {
+					di, pi, perms = di+1, 0, nil
+					continue
+				}
+				p := perms[pi]
+				pi++
+				return &vlib.Case{Project: render(docs[di], perms[0]), Project2: render(docs[di], p),
+					Params: map[string]any{"blocks": len(docs[di]), "identity": pi == 1}}
+			}
+			return nil
+		})
+		if done {
+			vlib.Ev("C15").Exhaustive("all permutations of the blocks of every generated small document (<= 5 blocks)", true)
+		}
+		vlib.Ev("C15").Extra("small_documents_x_all_permutations", len(docs))
+	})
 	t.Run("macro-blocks-permute", c15Macros.Run)
 	t.Run("model-permute", c15Model.Run)
 	t.Run("corpus-permute", c15Corpus.Run)
